@@ -7,7 +7,7 @@
    packets the machine hands to the socket between two reads of a command are a response of the grammar for that command
    with consecutive sequence numbers, and the machine is back at its prompt only when that response is complete. *)
 From Coq Require Import List Arith NArith Lia Bool.
-From MM Require Import Lib.Bytes Model.Conn Model.Resp Proofs.RespProofs Proofs.C10Proofs Gen.FactsConn Gen.FactsPackets Model.Packets Proofs.PacketProofs Proofs.C03Proofs Proofs.FuelProofs.
+From MM Require Import Lib.Bytes Model.Conn Model.Resp Proofs.RespProofs Proofs.C10Proofs Gen.FactsConn Gen.FactsPackets Model.Packets Proofs.PacketProofs Proofs.C03Proofs Proofs.FuelProofs Proofs.DeferProofs Proofs.PipelineProofs.
 Import ListNotations.
 Open Scope N_scope.
 
@@ -173,3 +173,38 @@ Qed.
    (Proofs/FuelProofs.v: a potential over plan length, queued commands weighted by their cursors, and the frame) *)
 Theorem c03_fuel_suffices : forall B BATCH s k f n, (FUEL s k <= n)%nat -> run B BATCH n s k f = go B BATCH s k f.
 Proof. exact go_stable. Qed.
+
+(* ---- conversations in which the client does NOT wait for the prompt (Proofs/DeferProofs.v, Proofs/PipelineProofs.v) ----------
+   A command that reaches the server while it is busy waits in the queue and is dispatched when the plan in progress is
+   exhausted: `c03_early_command` - running ANY plan with commands appended to the queue equals running it without them and,
+   if that run ends at the prompt, handing them over one by one (`defer`); for every state, plan, frame and queue.
+   Consequently EVERY conversation - commands at any moment at which the connection takes commands (`takes_commands`:
+   alive and not inside the authentication exchange of a COM_CHANGE_USER, whose next packet IS the exchange's reply;
+   COM_CHANGE_USER itself only at the prompt), any application
+   outcomes, any schedule of the other events - is executed as the lock-step conversation `execp` in which each command is
+   handed over at a prompt; the monitor, restarted at each hand-over, accepts at every hand-over and has not rejected at the
+   end (`v = true`): the stream a pipelining client receives is the concatenation of complete, well-formed responses with
+   consecutive sequence numbers in the order of its commands, the last one possibly still in progress; commands not yet
+   read (`D'`) are still queued. *)
+Theorem c03_early_command : forall B BATCH n s k f W D,
+  (wt s k <= W)%nat -> (Phi W (DeferProofs.Tq D s) k f <= n)%nat -> Ik s -> (f = FRead -> k = []) ->
+  run B BATCH n (DeferProofs.Tq D s) k f = defer B BATCH (run B BATCH n s k f) D.
+Proof. exact run_defer. Qed.
+
+Theorem c03_pipelined_conversation : forall B BATCH dep evs s,
+  quiescent dep s -> at_prompt s -> pvalid B BATCH dep s [] evs ->
+  let '(rk', m', s', D', o, v) := execp B BATCH dep RKOk (mk_mon RDone 0) s [] evs in
+  Proofs.C10Proofs.exec B BATCH s evs = (DeferProofs.Tq D' s', o) /\ v = true.
+Proof. exact pipelined_from_prompt. Qed.
+
+(* non-vacuity: a client that sends four commands at once, then more while results are produced under a paused socket *)
+Definition c03_pipe : list ev :=
+  [EvPayload CQuery; EvPayload CPing; EvPayload (CClose 3); EvPayload CQuery; EvPause;
+   EvApp (OSet (mk_sizes 1 [20] 5 7) [IRow 5; IRow 6]); EvPayload (CPrepare 1 (mk_sizes 12 [24] 5 0)); EvResume;
+   EvApp (ORaise None); EvPayload CPing].
+Example c03_pipelined_nonvacuous :
+  let s := fst (Proofs.C10Proofs.exec conn_buffer_size BATCH (fst (boot conn_buffer_size BATCH 78)) [EvHandshake true false; EvDecide ASuccess; EvApp OVoid]) in
+  pvalid conn_buffer_size BATCH false s [] c03_pipe /\
+  (let '(rk', m', s', D', o, v) := execp conn_buffer_size BATCH false RKOk (mk_mon RDone 0) s [] c03_pipe in
+   (D', v, is_prompt s')) = ([], true, true).
+Proof. vm_compute. repeat split; auto; try (intros H; discriminate H). Qed.
